@@ -37,7 +37,7 @@ pub fn run(run: &mut Run) {
 
 fn case<S: Shape>(r: &mut Rng, acc: &mut Acc, index: u64, verbose: bool) {
     let kinds = &S::KINDS[..S::N_ANIM];
-    let spec = gen_tl(r, kinds, &GenOpts::default());
+    let spec = gen_tl(r, kinds, &GenOpts { neg_delay: true, ..GenOpts::default() });
     let merged = r.chance(1, 5);
     let v: Vec<f64> = S::KINDS.iter().map(|k| gen_value(r, *k)).collect();
     let vs = S::from_vals(&v);
